@@ -97,8 +97,10 @@ type c13Result struct {
 
 func runC13Dead(t *testing.T, sc *vnet.Scenario) (res c13Result) {
 	var env *vnet.Env
+	mon := &windowMonitor{s: sc.N + 1}
 	out := vnet.InBubble(t, bubbleWatchdog, func() {
 		env = vnet.NewEnv(sc)
+		env.Trace.Observers = append(env.Trace.Observers, mon.observe)
 		env.StartHandshake()
 		if !env.WaitHandshake(600 * time.Second) {
 			res.labels = append(res.labels, "handshake_incomplete")
@@ -170,7 +172,9 @@ func runC13Dead(t *testing.T, sc *vnet.Scenario) (res c13Result) {
 			w := e.c.VerifWindow()
 			undetected = append(undetected, fmt.Sprintf("%s still open %v after the transport went silent (limit ping+pong+8*resend+1s = %v; window %d/%d)",
 				e.name, time.Since(t0), limit(e), w.Size, w.N))
-			if w.Size < w.N {
+			if w.Size < w.N || mon.pingOutstanding(1-e.recv) {
+				// (with a ping of its own unanswered the pong timer is armed
+				// and the window-full wait serves it: not the recorded finding)
 				allFull = false
 			}
 		}
